@@ -152,3 +152,52 @@ def normalise_discovery(events):
             yield {"ev": "SimError", "t": 0, "err": e["err"]}
         else:
             continue
+
+
+def normalise_worker(events):
+    """Normalised events for Trace_Worker.tla (deadlines, worker sleeps)."""
+    sent = {}
+    writes = []          # instance of the n-th successful write (sn = n)
+    readers = {}         # net -> reader index
+    got = {}             # reader index -> set of sns received
+    wl = rl = 0
+    for e in events:
+        ev = e["ev"]
+        t = us(e.get("t", 0))
+        if ev == "Reset":
+            sent, writes, readers, got, wl, rl = {}, [], {}, {}, 0, 0
+            yield {"ev": "Reset", "t": 0}
+        elif ev == "CreateWriter":
+            wl = 1 if e.get("listener") else wl
+            yield {"ev": "CreateWriter", "t": t, "q": qos_norm(e.get("qos"))}
+        elif ev == "CreateReader":
+            readers[e["net"]] = e["r"]
+            got[e["r"]] = set()
+            rl = 1 if e.get("listener") else rl
+            yield {"ev": "CreateReader", "t": t, "q": qos_norm(e.get("qos"))}
+        elif ev == "WriteRet":
+            if e["res"] == "Ok":
+                writes.append(e["i"] if e["kind"] == "write" else -1)
+            yield {"ev": "WriteRet", "t": t, "t0": us(e["t0"]), "i": e["i"], "kind": e["kind"], "res": e["res"]}
+        elif ev == "Send":
+            sent[e["id"]] = [s["sn"] for s in e["subs"] if s["k"] == "DATA"]
+        elif ev == "Deliver":
+            r = readers.get(e["to"])
+            if r is not None:
+                for sn in sent.get(e["id"], []):
+                    if sn not in got[r] and 1 <= sn <= len(writes) and writes[sn - 1] >= 0:
+                        got[r].add(sn)
+                        yield {"ev": "Recv", "t": t, "r": r, "i": writes[sn - 1]}
+        elif ev == "OfferedDeadlineStatus":
+            if "err" in e:
+                yield {"ev": ev, "t": t, "err": 1, "tot": 0, "chg": 0}
+            else:
+                yield {"ev": ev, "t": t, "err": 0, "tot": e["tot"], "chg": e["chg"]}
+        elif ev == "Listener":
+            yield {"ev": "Listener", "t": t, "kind": e["kind"], "idx": e["idx"], "tot": int(e.get("tot", 0)), "chg": int(e.get("chg", 0))}
+        elif ev == "Final":
+            yield {"ev": "Final", "t": t, "wlistener": wl, "rlistener": rl}
+        elif ev == "Sleep":
+            yield {"ev": "Sleep", "t": t, "dns": max(-1, min(BIG, int(e["d"])))}
+        elif ev == "SimError":
+            yield {"ev": "SimError", "t": 0, "err": e["err"]}
